@@ -127,6 +127,7 @@ template<Fn F, size_t L> struct Idx
 // ---------------------------------------------------------------- histories on the real container
 static std::map<ull, ull> g_serial2id; static ull g_nextid = 0;   // allocation serial -> canonical segment id (first appearance)
 static const size_t NONE = ~size_t(0);
+static bool g_ghist = false;   // ghist lines additionally print the address of the middle element as (segment id << 32) + offset
 
 template<Fn F, size_t L, class Elem = Elem16, class MM = TrackMM> struct Track
 {
@@ -262,6 +263,20 @@ template<Fn F, size_t L, class Elem = Elem16, class MM = TrackMM> struct Track
 		segs.swap(nsegs);
 		char buf[96]; snprintf(buf, sizeof buf, "%llu/%llu/%llu/%lld", ull(cnt), ull(sc), ull(arr.GetCapacity()), (sc && !segs.empty()) ? (long long)segs.back().second : -1LL);
 		out += buf;
+		if (g_ghist)
+		{	// where does the REAL operator[] put element cnt/2?  expressed through the segment table: (id << 32) + offset
+			long long a = -1;
+			if (cnt > 0)
+			{
+				const Elem* p = &arr[cnt / 2];
+				for (size_t s2 = 0; s2 < segs.size(); ++s2)
+				{
+					const Elem* base = static_cast<const Elem*>(segs[s2].first);
+					if (p >= base && p < base + S::GetItemCount(s2)) { a = (long long)((segs[s2].second << 32) + ull(p - base)); break; }
+				}
+			}
+			out += "/" + std::to_string(a);
+		}
 	}
 };
 
@@ -429,7 +444,7 @@ int main()
 		}
 		else if (cmd == "hist" || cmd == "ghist")   // ghist: same histories, compared with the GENERATED container functions
 		{
-			std::string f; ull l; is >> f >> l;
+			std::string f; ull l; is >> f >> l; g_ghist = (cmd == "ghist");
 			if (f == "sqw") histw_dispatch<Fn::sqrt>(l, is, false); else if (f == "cnw") histw_dispatch<Fn::cnst>(l, is, false);
 			else if (f == "sq") hist_dispatch<Fn::sqrt>(l, is); else hist_dispatch<Fn::cnst>(l, is);
 		}
